@@ -8,7 +8,7 @@ import (
 	"strings"
 )
 
-const maxInlineDepth = 4
+const maxInlineDepth = 7
 
 // callee resolves the static callee of a call, if any.
 func (v *FnV) callee(call *ast.CallExpr) (fn *types.Func, recv ast.Expr, sel *types.Selection) {
@@ -240,7 +240,11 @@ func (v *FnV) callWithArgs(st *State, call *ast.CallExpr, preArgs []Value) []Val
 		v.c.trusted["stdlib model: "+full] = true
 		return m.f(v, st, call, recv, args)
 	}
-	if decl := v.e.decls[full]; decl != nil && decl.Body != nil && len(v.frames) < maxInlineDepth && !v.inlining[full] && v.inlinable(decl) {
+	forceInline := false
+	if fc, ok := v.e.cs.Funcs[full]; ok && fc.Inline {
+		forceInline = true // loops inside get no invariant: their effects are havocked
+	}
+	if decl := v.e.decls[full]; decl != nil && decl.Body != nil && len(v.frames) < maxInlineDepth+2 && !v.inlining[full] && (forceInline || (len(v.frames) < maxInlineDepth && v.inlinable(decl))) {
 		return v.inlineDecl(st, call, full, fn, recv, args)
 	}
 	v.abstract(call, "call to "+shortName(full)+" without contract (havoc)")
@@ -544,6 +548,11 @@ func (v *FnV) contractCall(st *State, call *ast.CallExpr, fc *FuncContract, fn *
 			if sf := v.e.lookupSpec(pkg, fns[0]); sf != nil && sf.Body == nil && len(sf.Params) == len(args) {
 				fv := v.applySpecFn(st, sf, args, &Scope{v: v, vars: vars, pkg: pkg, callee: true})
 				st.assume(sEq(r.S, fv.S))
+				if len(args) == 1 && isString(args[0].T) {
+					// a function of a Go string depends on its content only
+					sym := "spec!" + mangle(sf.Name)
+					v.c.glob("congr:"+sym, fmt.Sprintf("(assert (forall ((a!g Str) (b!g Str)) (! (=> (str_eq a!g b!g) (= (%s a!g) (%s b!g))) :pattern ((%s a!g) (%s b!g)))))", sym, sym, sym, sym))
+				}
 				v.c.trusted[shortName(fc.FullName())+" is treated as a mathematical function of its arguments ("+fns[0]+")"] = true
 			}
 		}
